@@ -196,3 +196,252 @@ def lockstep(args):
                         'loop_ok': loop_ok,
                         'whole': None if loop_ok else {'single_call': whole['r'], 'single_call_partner': whole2['r']}})
     return out
+
+
+# ================================================================== 128K lock-step (Machine128.tla)
+FRAME128, IA128 = 70908, 36
+_BANKBASE = {5: 0x4000, 2: 0x8000}
+
+
+def bank_base(p):
+    """Base pattern of physical page p (0..7 RAM banks, 8/9 ROMs) - identical to Machine128!BaseP."""
+    if p >= 8:
+        return BASE[:0x4000]
+    b = _BANKBASE.get(p, 0xC000)
+    return BASE[b:b + 0x4000]
+
+
+_BANK_BASES = None
+
+
+def _bases():
+    global _BANK_BASES
+    if _BANK_BASES is None:
+        _BANK_BASES = [bytes(bank_base(p)) for p in range(10)]
+    return _BANK_BASES
+
+
+class Runner128:
+    """One implementation on 128K memory with the real trace.Tracer (which pages for the Python simulators; the C
+    simulators page internally and the tracer mirrors it)."""
+
+    def __init__(self, impl, regs, pov, o7, inv, ints):
+        from skoolkit import simutils
+        from skoolkit.pagingtracer import Memory, PagingTracer
+        from skoolkit.trace import Tracer
+        cls = _classes()[impl]
+        bases = _bases()
+        banks = [list(bases[p]) for p in range(8)]
+        for p in range(8):
+            for x, v in pov[p]:
+                banks[p][x] = v
+        mem = Memory(banks, o7)
+        for i, rom in enumerate(mem.roms):
+            rom[:] = list(bases[8 + i])
+            for x, v in pov[8 + i]:
+                rom[x] = v
+        self.sim = simutils.from_memory(cls, mem)
+        self.mem = self.sim.memory
+        for i, v in enumerate(regs):
+            self.sim.registers[i] = v
+        self.ref = [bytes(b) for b in self.mem.banks] + [bytes(x) for x in self.mem.roms]
+        outer = self
+
+        class T(Tracer):
+            def read_port(self, registers, port):
+                outer.io.append(['i', port, 0])
+                return inv
+
+            def write_port(self, registers, port, value, offset=0):
+                outer.io.append(['o', port, value])
+                PagingTracer.write_port(self, registers, port, value, offset)
+
+        self.tracer = T(self.sim, 0, o7, 0, [0] * 16, 0, False)
+        self.sim.set_tracer(self.tracer)
+        self.io = []
+        self.ints = ints
+        self.sink = io.StringIO()
+
+    def step(self, n=1):
+        self.io = []
+        exc = ''
+        try:
+            with contextlib.redirect_stdout(self.sink):
+                self.tracer.run(self.sim.registers[PC], None, n, 0, self.ints, None, None, None, None, '$', '02X', '04X')
+            self.sink.seek(0)
+            self.sink.truncate()
+        except Exception as e:
+            exc = '%s: %s' % (type(e).__name__, e)
+        mem = self.mem
+        pw = []
+        pages = list(mem.banks) + list(mem.roms)
+        for p in range(10):
+            cur = bytes(pages[p])
+            ref = self.ref[p]
+            if cur != ref:
+                pw += [[p, x, cur[x]] for x in range(0x4000) if cur[x] != ref[x]]
+                self.ref[p] = cur
+        vis3 = [i for i in range(8) if mem.memory[3] is mem.banks[i]]
+        vis0 = [8 + i for i in range(2) if mem.memory[0] is mem.roms[i]]
+        return {'r': [int(v) for v in self.sim.registers], 'pw': pw, 'io': self.io, 'exc': exc,
+                'o7': int(mem.o7ffd), 'tr': int(self.tracer.out7ffd),
+                'vis3': vis3[0] if len(vis3) == 1 else -1, 'vis0': vis0[0] if len(vis0) == 1 else -1}
+
+
+SAFE_BANKS = (0, 1, 3, 4, 6, 7)
+
+
+def gen_program128(rnd, alias):
+    """-> (regs, pov (10 lists of [x, v]), o7).  alias: banks 2/5 may be paged in at 0xC000 (sem = 0 traces)."""
+    regs = [0] * 30
+    for i in (A, F, B, C, D, E, H, L, 8, 9, 10, 11, I, R, 16, 17, 18, 19, 20, 21, 22, 23):
+        regs[i] = simdrv.r8(rnd)
+    banks = tuple(range(8)) if alias else SAFE_BANKS
+
+    def pv(lock=False):
+        return rnd.choice(banks) | (0x10 if rnd.random() < 0.5 else 0) | (0x20 if lock else 0) | rnd.choice((0, 0, 0x40, 0x80, 0xC8 & 0xC0))
+
+    o7 = pv()
+    regs[SP] = rnd.choice((0xC010, 0xFFFE, 0x0000, 0xC001, 0xC000, 0x8000, 0x7FFF, 0xBFFF, 0x4002, rnd.randrange(0xC002, 0x10000)))
+    regs[IM] = rnd.choice((0, 1, 2, 2))
+    regs[IFF] = 1 if rnd.random() < 0.7 else 0
+    regs[MEMPTR] = rnd.randrange(65536)
+    start = rnd.choice((0x8000, 0x8000, 0x6000, 0xC000, 0xC100, 0xBFF0, 0xFFF0))
+    n = rnd.choice((24, 48, 96))
+    code = []
+    cell = lambda: rnd.choice((0xC000, 0xC001, 0xFFFF, 0xC123, 0xE000, 0x7FFF, 0xBFFF, 0x4000, 0x3FFF, 0x0010))
+    while len(code) < n:
+        k = rnd.randrange(16)
+        v = pv(lock=rnd.random() < 0.06)
+        if k == 0:
+            code += [0x01, 0xFD, 0x7F, 0x3E, v, 0xED, 0x79]                 # LD BC,7FFD ; LD A,v ; OUT (C),A
+        elif k == 1:
+            code += [0x3E, v & 0x7F, 0xD3, 0xFD]                            # LD A,v ; OUT (FD),A  (port v<<8|FD)
+        elif k == 2:
+            port = rnd.choice((0x7FFD, 0x3FFD, 0x7FFF, 0xFFFD, 0xBFFD, 0x00FD, 0x7FFC, 0x1234 & 0x7FFD, 0x00FE))
+            code += [0x01, port & 255, port >> 8, 0x16, v, 0xED, 0x51]      # LD BC,port ; LD D,v ; OUT (C),D
+        elif k == 3:
+            a = cell()
+            code += [0x3E, rnd.randrange(256), 0x32, a & 255, a >> 8]        # LD A,n ; LD (a),A
+        elif k == 4:
+            a = cell()
+            code += [0x3A, a & 255, a >> 8]                                  # LD A,(a)
+        elif k == 5:
+            a = cell()
+            code += [0x21, rnd.randrange(256), rnd.randrange(256), 0x22, a & 255, a >> 8]   # LD HL,nn ; LD (a),HL
+        elif k == 6:
+            code += [0xF5, 0xC5, 0xE1, 0xD1]                                 # PUSH AF ; PUSH BC ; POP HL ; POP DE
+        elif k == 7:
+            sp = rnd.choice((0xC002, 0xC001, 0x0001, 0xFFFF, 0x8001, 0xC010))
+            code += [0x31, sp & 255, sp >> 8]                                # LD SP,nn
+        elif k == 8:
+            code += [0xFB, 0x76] if rnd.random() < 0.12 else [0xFB, 0x3C]        # EI ; HALT (rare: a HALT wait is up to 17k boundaries)
+        elif k == 9:
+            code += [0xFB, 0x00]
+        elif k == 10:
+            # OUTI to 0x7FFD: B is decremented before the port is formed
+            a = cell() | 0x8000
+            code += [0x21, a & 255, a >> 8, 0x36, v, 0x01, 0xFD, 0x80, 0xED, 0xA3]   # LD HL,a ; LD (HL),v ; LD BC,80FD ; OUTI
+        elif k == 11:
+            code += [0x11, 0x00, 0xC0, 0x21, 0x00, 0x80, 0x01, 3, 0, 0xED, 0xB0]     # LDIR 0x8000 -> 0xC000, 3 bytes
+        elif k == 12:
+            t = rnd.choice((0xC000, 0xC100))
+            code += [0xCD, t & 255, t >> 8]                                  # CALL into the paged area
+        elif k == 13:
+            code += [0xED, 0x5E] if rnd.random() < 0.5 else [0xED, 0x56]
+        elif k == 14:
+            code += [0xDB, 0xFE] if rnd.random() < 0.5 else [0xED, 0x78]
+        else:
+            code += [rnd.choice((0x00, 0x3C, 0x27, 0xE3, 0xD9, 0x08, 0x34, 0x35, 0x77, 0x7E))]
+    code += [0xC3, start & 255, start >> 8]
+    pov = [[] for _ in range(10)]
+
+    def put(a, v, page3):
+        if a < 0x4000:
+            pov[8].append([a, v])
+            pov[9].append([a, v])
+        elif a < 0x8000:
+            pov[5].append([a - 0x4000, v])
+        elif a < 0xC000:
+            pov[2].append([a - 0x8000, v])
+        else:
+            pov[page3].append([a - 0xC000, v])
+
+    page0 = o7 % 8
+    for i, b in enumerate(code):
+        put((start + i) % 65536, b, page0)
+    # something executable in every bank at 0xC000 / 0xC100 (routines that return), so that calls into a freshly paged
+    # bank find bank-specific code
+    for p in (banks if alias else SAFE_BANKS):
+        if p in (2, 5) and not alias:
+            continue
+        sub = [0x3E, 0x10 + p, 0x32, 0x05, 0xC0, 0xC9]                      # LD A,id ; LD (C005),A ; RET
+        for off in (0x0000, 0x0100):
+            if start >= 0xC000 and p == page0:
+                continue
+            for i, b in enumerate(sub):
+                pov[p].append([off + i + (8 if off == 0 else 0), b]) if off == 0 else pov[p].append([off + i, b])
+        if not (start >= 0xC000 and p == page0):
+            pov[p].append([0, 0x18])
+            pov[p].append([1, 0x06])                                         # JR +6 over the gap to 0xC008
+    put(0x38, 0xFB, page0)
+    put(0x39, 0xC9, page0)
+    if rnd.random() < 0.7:
+        vt = regs[I] * 256 + 255
+        if 0x4000 <= vt < 0xBFFF:
+            put(vt, 0x00, page0)
+            put(vt + 1, 0x90, page0)
+            for i, b in enumerate((0xF5, 0xF1, 0xFB, 0xED, 0x4D)):
+                put(0x9000 + i, b, page0)
+    regs[PC] = start
+    regs[T] = rnd.choice((0, 35, 36, 100, FRAME128 - 60, FRAME128 - 20, FRAME128 - 5, FRAME128 - 1, FRAME128 + 10,
+                          rnd.randrange(FRAME128 * 2), FRAME128 * 3 - 30))
+    # last value per (page, offset)
+    for p in range(10):
+        d = {}
+        for x, v in pov[p]:
+            d[x] = v
+        pov[p] = [[x, v] for x, v in d.items()]
+    return regs, pov, o7
+
+
+def lockstep128(args):
+    """(seed, nprogs, steps) -> trace records for Machine128."""
+    seed, nprogs, steps = args
+    cbuild.preload()
+    rnd = random.Random(seed)
+    out = []
+    for k in range(nprogs):
+        alias = (k % 4 == 3)
+        regs, pov, o7 = gen_program128(rnd, alias)
+        ints = rnd.random() < 0.8
+        inv = simdrv.r8(rnd)
+        for pair in PAIRS:
+            a = Runner128(pair[0], regs, pov, o7, inv, ints)
+            b = Runner128(pair[1], regs, pov, o7, inv, ints)
+            obs = []
+            stuck = 0
+            for _ in range(steps):
+                oa, ob = a.step(), b.step()
+                oa['r2'] = ob['r']
+                oa['same2'] = 1 if all(oa[f] == ob[f] for f in ('pw', 'io', 'exc', 'o7', 'tr', 'vis3', 'vis0')) else 0
+                if not oa['same2']:
+                    oa['partner'] = {f: ob[f] for f in ('pw', 'io', 'exc', 'o7', 'tr', 'vis3', 'vis0')}
+                obs.append(oa)
+                if oa['exc'] or oa['r'] != ob['r'] or not oa['same2']:
+                    break
+                stuck = stuck + 1 if (oa['r'][HALT] and (not oa['r'][IFF] or not ints)) else 0
+                if stuck >= 3:
+                    break
+            whole = Runner128(pair[0], regs, pov, o7, inv, ints).step(len(obs)) if obs and not obs[-1]['exc'] else None
+            whole2 = Runner128(pair[1], regs, pov, o7, inv, ints).step(len(obs)) if whole else None
+            loop_ok = 1
+            if whole and (whole['r'] != obs[-1]['r'] or whole2['r'] != obs[-1]['r2'] or whole['o7'] != obs[-1]['o7']
+                          or whole2['o7'] != obs[-1]['o7']):
+                loop_ok = 0
+            out.append({'pair': '+'.join(pair), 'kind': '128k-alias' if alias else '128k', 'ints': 1 if ints else 0,
+                        'frame': FRAME128, 'ia': IA128, 'inv': inv, 'sem': 0 if alias else 1,
+                        'tsem': 1 if pair[0] == 'py' else 0, 'r0': regs, 'pov0': pov, 'o70': o7, 'obs': obs,
+                        'loop_ok': loop_ok,
+                        'whole': None if loop_ok else {'single_call': whole['r'], 'single_call_partner': whole2['r']}})
+    return out
